@@ -755,6 +755,8 @@ def run_clause(K, method, clause):  # noqa: F811  (extends the dispatcher above)
             "reflexive": "orders",
         }
         return chk_c17(table.get(what, "cached-call"))
+    if method == "_numpy":
+        return chk_numpy(K)
     if method in ("toJsonFragment", "fromJsonFragment", "toJson", "fromJson"):
         if "valid" in what or "faithful" in what:
             return chk_c15(K)
